@@ -94,7 +94,11 @@ class Bundle(CborArray):
                 blk_data = blk.getfieldval('btsd')
                 if (blk.type_code == Bundle.BLOCK_TYPE_PAYLOAD
                         and blk_data is not None):
-                    pay = AdminRecord(blk_data)
+                    try:
+                        pay = AdminRecord(blk_data)
+                    except Exception:
+                        # not a readable record (yet), e.g. still encrypted
+                        continue
                     blk.remove_payload()
                     blk.add_payload(pay)
 
